@@ -54,7 +54,9 @@ def st_case(tier):
             progs.append(ops)
         multi = kind == "arbiter" and draw(st.booleans())      # the arbiter alone supports several outstanding requests
         return {"kind": kind, "M": M, "S": S, "wins": [list(w) for w in wins], "progs": progs,
-                "K": draw(st.sampled_from([2, 4])) if multi else 1, "w_after_aw": True,
+                "K": draw(st.sampled_from([2, 4])) if multi else 1,
+                # data before address only where no decoder is involved (known finding axil-decoder-w-before-aw)
+                "w_after_aw": draw(st.booleans()) if kind in ("arbiter", "p2p") else True,
                 "ms": [axil.st_chan_scheds(draw) for _ in range(M)], "ss": [axil.st_chan_scheds(draw) for _ in range(S)],
                 "Q": draw(st.sampled_from([1, 2, 4])), "wait_valid": draw(st.booleans()),
                 "gm": draw(st.one_of(st.none(), st.integers(0, 999))), "gs": draw(st.one_of(st.none(), st.integers(0, 999))),
